@@ -64,9 +64,9 @@ func (c17) Gen(tier string, seed int64) []fw.Unit {
 		}
 	}
 	r := rngFor(seed, "C17")
-	npoly, nrs := 40, 80
+	npoly, nrs := 160, 320
 	if tier == "thorough" {
-		npoly, nrs = 400, 1200
+		npoly, nrs = 1600, 4800
 	}
 	for i := 0; i < npoly; i++ {
 		us = append(us, fw.U("gf.poly", nil, "poly", int64(i%len(c17Fields)), r.Int63(), 500))
